@@ -18,10 +18,10 @@ import (
 
 func init() {
 	register(&property{
-		ID: "C07",
+		ID:          "C07",
 		Explanation: "Static decision of the TLS matcher's agreement with crypto/tls, with the standard library's own source (the toolchain's $GOROOT/src/crypto/tls, parsed on every run) as oracle: (R1) record gate: the hello is read only behind the test that byte 0 of the 5-byte header is the handshake type 22, whose failing edge answers (false, nil); (R2) the hello is read with io.ReadFull into a buffer whose size is exactly header[3]<<8|header[4]; (R3) framing agreement: for the fixed part and for every extension case present in both parsers, the ordered sequence of cryptobyte reads (method, reader role, fixed sizes) in parseRawClientHello equals the one in clientHelloMsg.unmarshal, and the case labels are the same constant values; (R4) field mapping: each extension that feeds tls.ClientHelloInfo is stored into the ClientHelloInfo field that crypto/tls fills from it (composed from unmarshal and clientHelloInfo()); (R5) the placeholders l4.tls.server_name / l4.tls.version are set from the parsed ServerName / Version, and the handshake sub-matchers are evaluated on the parsed info; (R6) an incomplete hello answers need-more (the C06 propagation rule on both reads) and the matcher does not consult the amount of buffered data.",
-		NotDecided: "Value-level agreement on actual hellos (name-type filter, trailing-dot rule, legacy-version fallback, validity predicates such as Empty() tests), i.e. the differential statement itself over all ClientHellos crypto/tls emits.",
-		Run:        runC07,
+		NotDecided:  "Value-level agreement on actual hellos (name-type filter, trailing-dot rule, legacy-version fallback, validity predicates such as Empty() tests), i.e. the differential statement itself over all ClientHellos crypto/tls emits.",
+		Run:         runC07,
 	})
 }
 
@@ -238,9 +238,10 @@ func seqString(s []readOp) string {
 }
 
 type helloParser struct {
-	prefix    []readOp            // reads before the extension switch
-	cases     map[int64][]readOp  // extension id -> reads
-	fields    map[int64][]string  // extension id -> fields assigned (last selector component)
+	loops     [][]string         // normalised effects of the loops of the fixed part
+	prefix    []readOp           // reads before the extension switch
+	cases     map[int64][]readOp // extension id -> reads
+	fields    map[int64][]string // extension id -> fields assigned (last selector component)
 	caseNames map[int64]string
 }
 
@@ -263,6 +264,9 @@ func extractHelloParser(fn *ast.FuncDecl, constVal func(e ast.Expr) (int64, bool
 	// prefix: all reads in the function body positioned before the switch
 	for _, op := range readSeqBefore(fn.Body, sw.Pos()) {
 		hp.prefix = append(hp.prefix, op)
+	}
+	for _, lp := range loopsBefore(fn.Body, sw.Pos()) {
+		hp.loops = append(hp.loops, loopEffects(lp.Body, constVal))
 	}
 	for _, st := range sw.Body.List {
 		cc := st.(*ast.CaseClause)
@@ -298,6 +302,115 @@ func extractHelloParser(fn *ast.FuncDecl, constVal func(e ast.Expr) (int64, bool
 		}
 	}
 	return hp
+}
+
+// loopEffects normalises the body of a parsing loop to its ordered effects: conditions (reads negated,
+// comparisons against constants by value), field assignments/appends (field name, case-insensitive),
+// and the control statements continue/break/return.
+func loopEffects(body *ast.BlockStmt, constVal func(e ast.Expr) (int64, bool)) []string {
+	var out []string
+	var cond func(e ast.Expr) string
+	cond = func(e ast.Expr) string {
+		switch x := e.(type) {
+		case *ast.ParenExpr:
+			return cond(x.X)
+		case *ast.UnaryExpr:
+			return x.Op.String() + cond(x.X)
+		case *ast.BinaryExpr:
+			l, rr := cond(x.X), cond(x.Y)
+			return "(" + l + x.Op.String() + rr + ")"
+		case *ast.CallExpr:
+			if se, ok := x.Fun.(*ast.SelectorExpr); ok {
+				return se.Sel.Name
+			}
+			return exprName(x.Fun)
+		case *ast.BasicLit:
+			return x.Value
+		case *ast.Ident, *ast.SelectorExpr:
+			if v, ok := constVal(e); ok {
+				return fmt.Sprintf("%#x", v)
+			}
+			if se, ok := x.(*ast.SelectorExpr); ok {
+				return "." + strings.ToLower(se.Sel.Name)
+			}
+			return "v"
+		}
+		return fmt.Sprintf("%T", e)
+	}
+	var walk func(list []ast.Stmt)
+	walk = func(list []ast.Stmt) {
+		for _, st := range list {
+			switch x := st.(type) {
+			case *ast.IfStmt:
+				out = append(out, "if "+cond(x.Cond)+" {")
+				walk(x.Body.List)
+				out = append(out, "}")
+				if x.Else != nil {
+					out = append(out, "else {")
+					switch e := x.Else.(type) {
+					case *ast.BlockStmt:
+						walk(e.List)
+					case *ast.IfStmt:
+						walk([]ast.Stmt{e})
+					}
+					out = append(out, "}")
+				}
+			case *ast.AssignStmt:
+				for i, l := range x.Lhs {
+					se, ok := l.(*ast.SelectorExpr)
+					if !ok {
+						continue
+					}
+					rhs := "expr"
+					if i < len(x.Rhs) {
+						switch rv := x.Rhs[i].(type) {
+						case *ast.CallExpr:
+							if exprName(rv.Fun) == "append" && len(rv.Args) >= 1 {
+								rhs = "append(." + strings.ToLower(lastSel(rv.Args[0])) + ")"
+							}
+						case *ast.Ident:
+							rhs = rv.Name
+						case *ast.BasicLit:
+							rhs = rv.Value
+						}
+					}
+					out = append(out, "."+strings.ToLower(se.Sel.Name)+" = "+rhs)
+				}
+			case *ast.BranchStmt:
+				out = append(out, x.Tok.String())
+			case *ast.ReturnStmt:
+				out = append(out, "return")
+			case *ast.BlockStmt:
+				walk(x.List)
+			case *ast.ForStmt:
+				out = append(out, "for {")
+				walk(x.Body.List)
+				out = append(out, "}")
+			}
+		}
+	}
+	walk(body.List)
+	return out
+}
+
+func lastSel(e ast.Expr) string {
+	if se, ok := e.(*ast.SelectorExpr); ok {
+		return se.Sel.Name
+	}
+	return exprName(e)
+}
+
+// loopsBefore returns the for loops of body that end before limit (the loops of the fixed part).
+func loopsBefore(body *ast.BlockStmt, limit token.Pos) []*ast.ForStmt {
+	var out []*ast.ForStmt
+	ast.Inspect(body, func(n ast.Node) bool {
+		if f, ok := n.(*ast.ForStmt); ok && f.End() < limit {
+			out = append(out, f)
+			return false
+		}
+		return true
+	})
+	return out
 }
 
 func readSeqBefore(body *ast.BlockStmt, limit token.Pos) []readOp {
@@ -423,6 +536,15 @@ func c07R34(c *Ctx, r *Report) {
 	}
 	fnName := "modules/l4tls.parseRawClientHello"
 	pos := c.pos(repoFn.Pos())
+	r.rule("C07.R7", "value-flow agreement of the fixed part with crypto/tls: every loop of the fixed part (the cipher-suite list) has the same ordered effects - reads, tests against the same constants, field assignments and appends (names compared case-insensitively), continue/break/return", 1)
+	if len(repo.loops) != len(std.loops) {
+		r.bad("C07.R7", fnName, "loops of the fixed part", pos, fmt.Sprintf("the fixed part has %d loop(s), crypto/tls has %d", len(repo.loops), len(std.loops)))
+	} else {
+		for i := range repo.loops {
+			a, b := strings.Join(repo.loops[i], " ; "), strings.Join(std.loops[i], " ; ")
+			r.check(a == b, "C07.R7", fnName, fmt.Sprintf("fixed-part loop %d", i+1), pos, a, fmt.Sprintf("the loop collects values differently from crypto/tls, so ClientHelloInfo differs from what Go's TLS server reports:\n  repo:       %s\n  crypto/tls: %s", a, b))
+		}
+	}
 	r.check(seqString(repo.prefix) == seqString(std.prefix), "C07.R3", fnName, "fixed part", pos, seqString(repo.prefix), fmt.Sprintf("the fixed part of the hello is framed differently from crypto/tls:\n  repo:       %s\n  crypto/tls: %s", seqString(repo.prefix), seqString(std.prefix)))
 	var ids []int64
 	for id := range repo.cases {
@@ -490,7 +612,7 @@ func c07R34(c *Ctx, r *Report) {
 }
 
 func c07R5(c *Ctx, r *Report, rule string) {
-	r.rule(rule, "placeholders and sub-matchers: l4.tls.server_name is set from the parsed ClientHelloInfo.ServerName, l4.tls.version from the parsed Version; every configured handshake matcher is invoked on the parsed info and a false result answers (false, nil)", 3)
+	r.rule(rule, "placeholders and sub-matchers: l4.tls.server_name is set from the parsed ClientHelloInfo.ServerName, l4.tls.version from the parsed Version; every configured handshake matcher is invoked on the parsed info and a false result answers (false, nil); every path to a possibly-true verdict passes the parse and both placeholder assignments", 6)
 	fn := c.Fn("modules/l4tls.(*MatchTLS).Match")
 	if fn == nil {
 		return
@@ -527,6 +649,40 @@ func c07R5(c *Ctx, r *Report, rule string) {
 	}
 	for k := range want {
 		r.bad(rule, fname(fn), "placeholder "+k, c.pos(fn.Pos()), "placeholder is never set")
+	}
+	// must-pass-through: no path to a return whose verdict may be "matched" avoids the parse or either placeholder
+	mayMatch := func(in ssa.Instruction) bool {
+		ret, ok := in.(*ssa.Return)
+		if !ok || len(ret.Results) < 1 {
+			return false
+		}
+		if b, isC := constBool(ret.Results[0]); isC && !b {
+			return false
+		}
+		return true
+	}
+	for _, k := range []string{"parse", "l4.tls.server_name", "l4.tls.version"} {
+		k := k
+		through := func(in ssa.Instruction) bool {
+			ci, ok := in.(ssa.CallInstruction)
+			if !ok {
+				return false
+			}
+			if k == "parse" {
+				return in == ssa.Instruction(parsed)
+			}
+			if !strings.HasSuffix(calleeID(ci), "Replacer).Set") {
+				return false
+			}
+			s, _ := constString(ci.Common().Args[1])
+			return s == k
+		}
+		esc := pathFromEntryAvoiding(fn, mayMatch, through)
+		where := ""
+		if esc != nil {
+			where = c.ipos(esc)
+		}
+		r.check(esc == nil, rule, fname(fn), "every matched path passes "+k, c.pos(fn.Pos()), "no path to a possibly-true verdict avoids it", "the return at "+where+" can answer 'matched' on a path that never passes "+k+": the route matches but the TLS placeholders / parsed hello are missing for this connection")
 	}
 	// sub-matchers
 	good := false
